@@ -865,6 +865,7 @@ impl Engine {
             }
             let rows = world.verif_archetype_rows();
             obs.push(world.archetypes().len() as u64);
+            let mut type_sets = HashSet::new();
             for (i, a) in world.archetypes().enumerate() {
                 let mut ts = Vec::new();
                 for t in 0..NTYPES as u64 {
@@ -876,6 +877,9 @@ impl Engine {
                 }
                 if a.component_types().count() != ts.len() {
                     out.flag("harness: archetype with component types outside the universe".to_string());
+                }
+                if !type_sets.insert(ts.clone()) {
+                    out.flag(format!("C10: two archetypes hold the same component set {:?}", ts));
                 }
                 obs.push(ts.len() as u64);
                 obs.extend(ts);
@@ -962,21 +966,45 @@ impl Engine {
     }
 }
 
-pub fn run(args: &[u64], out: &mut Out) {
+type Canon = (Vec<BTreeMap<u64, BTreeMap<u64, u64>>>, Vec<Vec<(Vec<u64>, u32)>>);
+
+/// runs one script; returns the canonical final state of the live worlds (for twin comparison)
+fn run_script(args: &[u64], out: &mut Out) -> Canon {
     let mut r = Rd { a: args, p: 0 };
-    // the universe is fixed by the harness; the case repeats it for the model's benefit
-    let n = r.next() as usize;
-    let uni = universe();
-    for i in 0..n {
-        let (a, s, k) = (r.next(), r.next(), r.next());
-        if i >= uni.len() || uni[i] != (a, s, k) {
-            out.flag("harness: case universe differs from the compiled universe (regenerate cases)".to_string());
-        }
-    }
     drain_drops();
     let mut eng = Engine::new();
+    let mut canon: Canon = (Vec::new(), Vec::new());
     while !r.done() {
         let opc = r.next();
+        if opc == 21 && canon.0.is_empty() {
+            // canonical state just before the teardown starts
+            for w in 0..2 {
+                if eng.live(w) {
+                    canon.0.push(eng.shadow[w].ents.clone());
+                    let world = eng.worlds[w].as_ref().unwrap();
+                    let mut archs: Vec<(Vec<u64>, u32)> = world
+                        .archetypes()
+                        .filter(|a| !a.is_empty())
+                        .map(|a| {
+                            let mut ts = Vec::new();
+                            for t in 0..NTYPES as u64 {
+                                with_comp!(t, C, {
+                                    if a.has::<C>() {
+                                        ts.push(t);
+                                    }
+                                });
+                            }
+                            (ts, a.len())
+                        })
+                        .collect();
+                    archs.sort();
+                    canon.1.push(archs);
+                } else {
+                    canon.0.push(BTreeMap::new());
+                    canon.1.push(vec![(vec![u64::MAX], 0)]);
+                }
+            }
+        }
         let obs = eng.op(opc, &mut r, out);
         out.push(obs.len() as u64);
         out.nums.extend(obs);
@@ -987,4 +1015,40 @@ pub fn run(args: &[u64], out: &mut Out) {
     let d = drain_drops();
     eng.ledger.dropped(&d, &sizes, out);
     eng.ledger.finish(out);
+    canon
+}
+
+fn check_universe(r: &mut Rd, out: &mut Out) {
+    // the universe is fixed by the harness; the case repeats it for the model's benefit
+    let n = r.next() as usize;
+    let uni = universe();
+    for i in 0..n {
+        let (a, s, k) = (r.next(), r.next(), r.next());
+        if i >= uni.len() || uni[i] != (a, s, k) {
+            out.flag("harness: case universe differs from the compiled universe (regenerate cases)".to_string());
+        }
+    }
+}
+
+pub fn run(args: &[u64], out: &mut Out) {
+    let mut r = Rd { a: args, p: 0 };
+    check_universe(&mut r, out);
+    run_script(&args[r.p..], out);
+}
+
+/// Engine 2: twin scripts (C10)
+pub fn run_twin(args: &[u64], out: &mut Out) {
+    let mut r = Rd { a: args, p: 0 };
+    check_universe(&mut r, out);
+    let la = r.next() as usize;
+    let a = &args[r.p..r.p + la];
+    let b = &args[r.p + la..];
+    let ca = run_script(a, out);
+    let cb = run_script(b, out);
+    if ca.0 != cb.0 {
+        out.flag("C10: permuting bundle fields / switching representation changed the resulting entities".to_string());
+    }
+    if ca.1 != cb.1 {
+        out.flag(format!("C10: same component sets stored in different archetype structure: {:?} vs {:?}", ca.1, cb.1));
+    }
 }
